@@ -81,6 +81,7 @@ type Extracted struct {
 	Problems []Problem // raw-store invariant violations (property, class, detail)
 	// counts for limits scan
 	NTopics, NWriters, NRecords, NDids, NDenoms, NTokens int
+	UnknownKeys int // entries under key prefixes this decoder does not know
 	Stored                                               []StoredField // values to check against documented limits (C16)
 }
 
@@ -205,7 +206,9 @@ func extractAol(st sdk.KVStore, ex *Extracted) {
 			ex.NRecords++
 			ex.Stored = append(ex.Stored, StoredField{"record_key", string(r.Key)}, StoredField{"record_value", string(r.Value)})
 		default:
-			ex.prob("C13", "aol.store.badkey", "", "unknown prefix %x", kv.K[:1])
+			// a key space this decoder does not know (an index a later version adds, say) is not a violation of any
+			// listed property by itself: what the known key spaces hold is judged, the rest is only counted
+			ex.UnknownKeys++
 		}
 	}
 	tks := make([]string, 0, len(topics))
@@ -385,7 +388,7 @@ func extractPnft(st sdk.KVStore, ex *Extracted) {
 				supply[string(kv.K[1:])] = binary.BigEndian.Uint64(kv.V)
 			}
 		default:
-			ex.prob("C12", "pnft.store.badkey", "", "unknown prefix %x", kv.K[:1])
+			ex.UnknownKeys++
 		}
 	}
 	sort.Slice(toks, func(i, j int) bool {
